@@ -267,11 +267,14 @@ class Spec(EvalableModel):
             calculated = getattr(orig, "_costs_calculated", frozenset())
             prev_log = list(c.component_modeling_log)
             c.component_modeling_log.clear()
-            if area and "area" not in calculated:
-                c = c.calculate_area(models)
-                orig.area = c.area
-                orig.total_area = c.area * global_fanout
-                calculated = calculated | {"area"}
+            if area:
+                if "area" not in calculated:
+                    c = c.calculate_area(models)
+                    orig.area = c.area
+                    calculated = calculated | {"area"}
+                # The total follows the current hierarchy even when the per-instance value
+                # was calculated by an earlier call.
+                orig.total_area = orig.area * global_fanout
             if energy and "energy" not in calculated:
                 c = c.calculate_action_energy(models)
                 for a in c.actions:
@@ -284,11 +287,12 @@ class Spec(EvalableModel):
                     orig_action = orig.actions[a.name]
                     orig_action.throughput = a.throughput
                 calculated = calculated | {"throughput"}
-            if leak and "leak" not in calculated:
-                c = c.calculate_leak_power(models)
-                orig.leak_power = c.leak_power
-                orig.total_leak_power = c.leak_power * global_fanout
-                calculated = calculated | {"leak"}
+            if leak:
+                if "leak" not in calculated:
+                    c = c.calculate_leak_power(models)
+                    orig.leak_power = c.leak_power
+                    calculated = calculated | {"leak"}
+                orig.total_leak_power = orig.leak_power * global_fanout
             orig.component_modeling_log = prev_log + c.component_modeling_log
             orig.component_model = c.component_model
             orig._costs_calculated = calculated
